@@ -614,7 +614,13 @@ qb_rb_chunk_peek(struct qb_ringbuffer_s * rb, void **data_out, int32_t timeout)
 		return res;
 	}
 	read_pt = rb->shared_hdr->read_pt;
-	chunk_magic = QB_RB_CHUNK_MAGIC_GET(rb, read_pt);
+	if (rb->notifier.timedwait_fn == NULL &&
+	    read_pt == rb->shared_hdr->write_pt) {
+		/* empty: the word after read_pt is stale data, not a header */
+		chunk_magic = QB_RB_CHUNK_MAGIC_DEAD;
+	} else {
+		chunk_magic = QB_RB_CHUNK_MAGIC_GET(rb, read_pt);
+	}
 	if (chunk_magic != QB_RB_CHUNK_MAGIC) {
 		if (rb->notifier.post_fn) {
 			(void)rb->notifier.post_fn(rb->notifier.instance, res);
@@ -654,7 +660,13 @@ qb_rb_chunk_read(struct qb_ringbuffer_s * rb, void *data_out, size_t len,
 	}
 
 	read_pt = rb->shared_hdr->read_pt;
-	chunk_magic = QB_RB_CHUNK_MAGIC_GET(rb, read_pt);
+	if (rb->notifier.timedwait_fn == NULL &&
+	    read_pt == rb->shared_hdr->write_pt) {
+		/* empty: the word after read_pt is stale data, not a header */
+		chunk_magic = QB_RB_CHUNK_MAGIC_DEAD;
+	} else {
+		chunk_magic = QB_RB_CHUNK_MAGIC_GET(rb, read_pt);
+	}
 
 	if (chunk_magic != QB_RB_CHUNK_MAGIC) {
 		if (rb->notifier.timedwait_fn == NULL) {
